@@ -2,7 +2,7 @@
    kernel untouched and only append their InotifyEvent; hence reading a batch from which such events
    have been removed ends in the same state and yields the corresponding sub-list of the output. *)
 Require Import WD.Base.Prelude WD.Base.BStr WD.Model.SubEvents WD.Model.Emitter WD.Model.Fs WD.Model.Reader.
-Require Import WD.Proofs.ContractProofs.
+Require Import WD.Proofs.ReaderFixProofs WD.Proofs.ContractProofs.
 
 (* the bits the reader itself acts on *)
 Definition structural (recursive : bool) (m : N) : bool :=
@@ -72,7 +72,9 @@ Section R.
     let src_path := match k_name e with [] => wd_path | _ => join wd_path (k_name e) end in
     let ev := {| r_wd := k_wd e; r_mask := m; r_cookie := k_cookie e; r_name := k_name e; r_path := src_path |} in
     if is_moved_from m then
-      ({| wfp := wfp r; pfw := pfw r; mvf := aset N.eqb (k_cookie e) src_path (mvf r); calls := calls r |}, k, ev)
+      ({| wfp := wfp r; pfw := pfw r; mvf := aset N.eqb (k_cookie e) src_path (mvf r); calls := calls r;
+         pend := if c_fix_moveout C && c_recursive C && is_directory m then Some (k_cookie e, src_path) else pend r |},
+       k, ev)
     else if is_moved_to m then
       let ev' := {| r_wd := k_wd e; r_mask := m; r_cookie := k_cookie e; r_name := k_name e;
                     r_path := join wd_path (k_name e) |} in
@@ -81,7 +83,7 @@ Section R.
         match alookup beqb msrc (wfp r) with
         | Some mwd =>
           let r' := {| wfp := aset beqb src_path mwd (aremove beqb msrc (wfp r));
-                       pfw := aset N.eqb mwd src_path (pfw r); mvf := mvf r; calls := calls r |} in
+                       pfw := aset N.eqb mwd src_path (pfw r); mvf := mvf r; calls := calls r; pend := pend r |} in
           ((if c_recursive C then rekey_loop (wfp r') msrc src_path r' else r'), k, ev')
         | None =>
           if c_fix_movein C && c_recursive C && is_directory m && fisdir src_path t
@@ -100,20 +102,23 @@ Section R.
       match alookup N.eqb (k_wd e) (pfw r1) with
       | None => Crash SITE_PATH_FOR_WD
       | Some path =>
-        let rp := {| wfp := wfp r1; pfw := aremove N.eqb (k_wd e) (pfw r1); mvf := mvf r1; calls := calls r1 |} in
+        let rp := {| wfp := wfp r1; pfw := aremove N.eqb (k_wd e) (pfw r1); mvf := mvf r1; calls := calls r1;
+                     pend := pend r1 |} in
         match alookup beqb path (wfp rp) with
         | Some w => if N.eqb w (k_wd e)
-                    then Done {| wfp := aremove beqb path (wfp rp); pfw := pfw rp; mvf := mvf rp; calls := calls rp |}
+                    then Done {| wfp := aremove beqb path (wfp rp); pfw := pfw rp; mvf := mvf rp; calls := calls rp;
+                                pend := pend rp |}
                     else Done rp
         | None => if c_fix_ignored C then Done rp else Crash SITE_IGNORED
         end
       end
     else Done r1.
 
-  Lemma read_one_factored t r k acc e :
-    read_one C t (r, k, acc) e =
+  (* the loop body after the head (settle_pending) *)
+  Lemma read_one_body_factored t r k acc e :
+    read_one_body C t (r, k, acc) e =
     match alookup N.eqb (k_wd e) (pfw r) with
-    | None => Crash SITE_PATH_FOR_WD
+    | None => if c_fix_moveout C then Done (r, k, acc) else Crash SITE_PATH_FOR_WD
     | Some wd_path =>
       let '(r1, k1, ev1) := ro_move t r k e wd_path in
       match ro_ignored r1 e with
@@ -130,6 +135,11 @@ Section R.
     end.
   Proof. reflexivity. Qed.
 
+  Lemma read_one_settle t r k acc e :
+    read_one C t (r, k, acc) e =
+    read_one_body C t (fst (settle_pending C r k e), snd (settle_pending C r k e), acc) e.
+  Proof. unfold read_one. destruct (settle_pending C r k e); reflexivity. Qed.
+
   Lemma ro_move_mask t r k e wdp : r_mask (snd (ro_move t r k e wdp)) = k_mask e.
   Proof.
     unfold ro_move.
@@ -143,83 +153,260 @@ Section R.
       destruct (add_dirs C r k t _); reflexivity.
   Qed.
 
-  (* what one event does is independent of the accumulator; it appends its own InotifyEvent (same mask)
-     followed - only for IN_CREATE|IN_ISDIR under a recursive watch - by simulated IN_CREATE raws *)
-  Lemma read_one_acc t r k e :
-    (exists r' k' ev sims,
-        r_mask ev = k_mask e /\ Forall sim_raw sims /\ (sims <> [] -> c_recursive C = true) /\
-        forall acc, read_one C t (r, k, acc) e = Done (r', k', acc ++ ev :: sims)) \/
-    (exists s, forall acc, read_one C t (r, k, acc) e = Crash s).
+  (* what one event does is independent of the accumulator; it appends nothing (unknown descriptor, repaired code) or
+     its own InotifyEvent (same mask) followed - only for IN_CREATE|IN_ISDIR under a recursive watch - by simulated
+     IN_CREATE raws *)
+  Lemma read_one_body_acc t r k e :
+    (exists r' k' o,
+        (o = [] \/ exists ev sims, o = ev :: sims /\ r_mask ev = k_mask e /\ Forall sim_raw sims /\
+                                   (sims <> [] -> c_recursive C = true)) /\
+        forall acc, read_one_body C t (r, k, acc) e = Done (r', k', acc ++ o)) \/
+    (exists s, forall acc, read_one_body C t (r, k, acc) e = Crash s).
   Proof.
     destruct (alookup N.eqb (k_wd e) (pfw r)) as [wdp|] eqn:Hl.
-    2:{ right. exists SITE_PATH_FOR_WD. intros acc. rewrite read_one_factored, Hl. reflexivity. }
+    2:{ destruct (c_fix_moveout C) eqn:Hf.
+        - left. exists r, k, []. split; [now left|]. intros acc. rewrite read_one_body_factored, Hl, Hf, app_nil_r. reflexivity.
+        - right. exists SITE_PATH_FOR_WD. intros acc. rewrite read_one_body_factored, Hl, Hf. reflexivity. }
     pose proof (ro_move_mask t r k e wdp) as Hm.
     destruct (ro_move t r k e wdp) as [[r1 k1] ev1] eqn:Em. cbn [snd] in Hm.
     destruct (ro_ignored r1 e) as [r2|s] eqn:Ei.
-    2:{ right. exists s. intros acc. rewrite read_one_factored, Hl, Em, Ei. reflexivity. }
+    2:{ right. exists s. intros acc. rewrite read_one_body_factored, Hl, Em, Ei. reflexivity. }
     destruct (c_recursive C && is_directory (k_mask e) && is_create (k_mask e)) eqn:Ec.
     - assert (Hrec : c_recursive C = true).
       { destruct (c_recursive C); [reflexivity | discriminate]. }
       destruct (add_watch C r2 k1 t (r_path ev1)) as [[[r3 k3] wd3]|] eqn:Ea.
       + destruct (simulate_acc t (walk (r_path ev1) (content t (r_path ev1))) r3 k3)
           as [[r' [k' [o [Ho H]]]]|[s H]].
-        * left. exists r', k', ev1, o.
-          split; [exact Hm | split; [exact Ho | split; [intros _; exact Hrec |]]].
-          intros acc. rewrite read_one_factored, Hl, Em, Ei, Ec, Ea. cbn zeta. rewrite H, <- app_assoc. reflexivity.
-        * right. exists s. intros acc. rewrite read_one_factored, Hl, Em, Ei, Ec, Ea. apply H.
-      + left. exists (bump r2), k1, ev1, [].
-        split; [exact Hm | split; [constructor | split; [congruence |]]].
-        intros acc. rewrite read_one_factored, Hl, Em, Ei, Ec, Ea. reflexivity.
-    - left. exists r2, k1, ev1, [].
-      split; [exact Hm | split; [constructor | split; [congruence |]]].
-      intros acc. rewrite read_one_factored, Hl, Em, Ei, Ec. reflexivity.
+        * left. exists r', k', (ev1 :: o). split.
+          { right. exists ev1, o. split; [reflexivity|]. split; [exact Hm | split; [exact Ho | intros _; exact Hrec]]. }
+          intros acc. rewrite read_one_body_factored, Hl, Em, Ei, Ec, Ea. cbn zeta. rewrite H, <- app_assoc. reflexivity.
+        * right. exists s. intros acc. rewrite read_one_body_factored, Hl, Em, Ei, Ec, Ea. apply H.
+      + left. exists (bump r2), k1, [ev1]. split.
+        { right. exists ev1, []. split; [reflexivity|]. split; [exact Hm | split; [constructor | congruence]]. }
+        intros acc. rewrite read_one_body_factored, Hl, Em, Ei, Ec, Ea. reflexivity.
+    - left. exists r2, k1, [ev1]. split.
+      { right. exists ev1, []. split; [reflexivity|]. split; [exact Hm | split; [constructor | congruence]]. }
+      intros acc. rewrite read_one_body_factored, Hl, Em, Ei, Ec. reflexivity.
+  Qed.
+
+  Lemma read_one_acc t r k e :
+    (exists r' k' o,
+        (o = [] \/ exists ev sims, o = ev :: sims /\ r_mask ev = k_mask e /\ Forall sim_raw sims /\
+                                   (sims <> [] -> c_recursive C = true)) /\
+        forall acc, read_one C t (r, k, acc) e = Done (r', k', acc ++ o)) \/
+    (exists s, forall acc, read_one C t (r, k, acc) e = Crash s).
+  Proof.
+    destruct (read_one_body_acc t (fst (settle_pending C r k e)) (snd (settle_pending C r k e)) e)
+      as [[r' [k' [o [Ho H]]]]|[s H]].
+    - left. exists r', k', o. split; [exact Ho|]. intros acc. rewrite read_one_settle. apply H.
+    - right. exists s. intros acc. rewrite read_one_settle. apply H.
+  Qed.
+
+  (* ---------------------------------------------------------------- the remembered move-out candidate *)
+  (* the repair is on and a directory IN_MOVED_FROM is remembered: the head of the next iteration will act *)
+  Definition pending_of (r : rstate) : bool :=
+    c_fix_moveout C && match pend r with Some _ => true | None => false end.
+
+  (* the only records after which a candidate can be remembered *)
+  Definition sets_pend (m : N) : bool := c_fix_moveout C && c_recursive C && is_moved_from m && is_directory m.
+
+  Lemma add_watch_pend r k t p r' k' wd : add_watch C r k t p = Some (r', k', wd) -> pend r' = pend r.
+  Proof.
+    unfold add_watch. destruct (mem_nat _ _); [discriminate|]. destruct (kadd_watch k t p (c_mask C)) as [[k1 w]|]; [|discriminate].
+    intros H. inversion H; subst. reflexivity.
+  Qed.
+
+  Lemma sim_dirs_pend t root ds : forall r k acc, pend (fst (fst (sim_dirs C r k t root ds acc))) = pend r.
+  Proof.
+    induction ds as [|d ds IH]; intros r k acc; cbn [sim_dirs]; [reflexivity|].
+    destruct (add_watch C r k t (join root d)) as [[[r1 k1] wd]|] eqn:Ea.
+    - rewrite IH. eapply add_watch_pend. exact Ea.
+    - rewrite IH. reflexivity.
+  Qed.
+
+  Lemma simulate_pend t w : forall r k acc r' k' out,
+    simulate C r k t w acc = Done (r', k', out) -> pend r' = pend r.
+  Proof.
+    induction w as [|[[root ds] fls] w IH]; intros r k acc r' k' out H; cbn [simulate] in H.
+    - inversion H; subst. reflexivity.
+    - pose proof (sim_dirs_pend t root ds r k acc) as Hp.
+      destruct (sim_dirs C r k t root ds acc) as [[r1 k1] a1]. cbn [fst] in Hp.
+      destruct (sim_files C r1 root fls a1); [|discriminate]. rewrite (IH _ _ _ _ _ _ H). exact Hp.
+  Qed.
+
+  Lemma add_dirs_pend t ps : forall r k, pend (fst (add_dirs C r k t ps)) = pend r.
+  Proof.
+    induction ps as [|p ps IH]; intros r k; cbn [add_dirs]; [reflexivity|].
+    destruct (add_watch C r k t p) as [[[r1 k1] wd]|] eqn:Ea; [|reflexivity].
+    rewrite IH. eapply add_watch_pend. exact Ea.
+  Qed.
+
+  Lemma rekey_loop_pend keys src dst : forall r, pend (rekey_loop keys src dst r) = pend r.
+  Proof.
+    induction keys as [|[p x] keys IH]; intros r; cbn [rekey_loop]; [reflexivity|].
+    destruct (starts (src ++ [sep]) p); [|apply IH]. destruct (alookup beqb p (wfp r)); rewrite IH; reflexivity.
+  Qed.
+
+  Lemma ro_move_pend t r k e wdp :
+    pend (fst (fst (ro_move t r k e wdp))) = pend r \/
+    (sets_pend (k_mask e) = true).
+  Proof.
+    unfold ro_move, sets_pend.
+    destruct (is_moved_from (k_mask e)).
+    - cbn [fst pend]. destruct (c_fix_moveout C && c_recursive C && is_directory (k_mask e)) eqn:E; [|now left].
+      right. apply andb_true_iff in E as [E E3]. apply andb_true_iff in E as [E1 E2]. now rewrite E1, E2, E3.
+    - left. destruct (is_moved_to (k_mask e)); [|reflexivity].
+      destruct (alookup N.eqb (k_cookie e) (mvf r)) as [msrc|].
+      + destruct (alookup beqb msrc (wfp r)).
+        * cbn [fst]. destruct (c_recursive C); [rewrite rekey_loop_pend|]; reflexivity.
+        * destruct (c_fix_movein C && c_recursive C && is_directory (k_mask e) && fisdir _ t); [|reflexivity].
+          pose proof (add_dirs_pend t (match k_name e with [] => wdp | _ :: _ => join wdp (k_name e) end
+                                        :: walk_dirs t match k_name e with [] => wdp | _ :: _ => join wdp (k_name e) end) r k) as H.
+          destruct (add_dirs C r k t _). exact H.
+      + destruct (c_fix_movein C && c_recursive C && is_directory (k_mask e) && fisdir _ t); [|reflexivity].
+        pose proof (add_dirs_pend t (match k_name e with [] => wdp | _ :: _ => join wdp (k_name e) end
+                                      :: walk_dirs t match k_name e with [] => wdp | _ :: _ => join wdp (k_name e) end) r k) as H.
+        destruct (add_dirs C r k t _). exact H.
+  Qed.
+
+  Lemma ro_ignored_pend r e r2 : ro_ignored r e = Done r2 -> pend r2 = pend r.
+  Proof.
+    unfold ro_ignored. destruct (Emitter.is_ignored (k_mask e)); [|intros H; inversion H; reflexivity].
+    destruct (alookup N.eqb (k_wd e) (pfw r)); [|discriminate]. cbn [wfp pfw].
+    destruct (alookup beqb b (wfp r)).
+    - destruct (N.eqb n (k_wd e)); intros H; inversion H; reflexivity.
+    - destruct (c_fix_ignored C); [|discriminate]. intros H; inversion H; reflexivity.
+  Qed.
+
+  Lemma read_one_body_pend t r k acc e r' k' out :
+    read_one_body C t (r, k, acc) e = Done (r', k', out) -> pend r' = pend r \/ sets_pend (k_mask e) = true.
+  Proof.
+    rewrite read_one_body_factored. destruct (alookup N.eqb (k_wd e) (pfw r)) as [wdp|].
+    2:{ destruct (c_fix_moveout C); [|discriminate]. intros H; inversion H; subst. now left. }
+    pose proof (ro_move_pend t r k e wdp) as Hm.
+    destruct (ro_move t r k e wdp) as [[r1 k1] ev1]. cbn [fst] in Hm.
+    destruct (ro_ignored r1 e) as [r2|] eqn:Ei; [|discriminate]. apply ro_ignored_pend in Ei.
+    destruct Hm as [Hm|Hm]; [|intros _; now right].
+    destruct (c_recursive C && is_directory (k_mask e) && is_create (k_mask e)).
+    - destruct (add_watch C r2 k1 t (r_path ev1)) as [[[r3 k3] wd]|] eqn:Ea.
+      + intros H. apply simulate_pend in H. apply add_watch_pend in Ea. left. congruence.
+      + intros H. inversion H; subst. left. cbn [bump pend]. congruence.
+    - intros H. inversion H; subst. left. congruence.
+  Qed.
+
+  Lemma forget_tree_pend keys p : forall r k, pend (fst (forget_tree keys p r k)) = pend r.
+  Proof.
+    induction keys as [|[q x] keys IH]; intros r k; cbn [forget_tree]; [reflexivity|].
+    destruct (beqb q p || starts (p ++ [sep]) q); [|apply IH].
+    destruct (alookup beqb q (wfp r)) as [wd|]; [|apply IH].
+    destruct (alookup N.eqb wd (pfw r)) as [q'|]; [destruct (beqb q' q)|]; rewrite IH; reflexivity.
+  Qed.
+
+  Lemma settle_not_pending r k e : pending_of (fst (settle_pending C r k e)) = false.
+  Proof.
+    unfold settle_pending, pending_of. destruct (c_fix_moveout C) eqn:Hf; [|reflexivity].
+    destruct (pend r) as [[c p]|] eqn:Ep; [|cbn [fst]; now rewrite Ep].
+    destruct (is_moved_to (k_mask e) && N.eqb (k_cookie e) c && amem N.eqb (k_wd e) (pfw r)); [reflexivity|].
+    rewrite forget_tree_pend. reflexivity.
+  Qed.
+
+  Lemma settle_idle r k e : pending_of r = false -> settle_pending C r k e = (r, k).
+  Proof.
+    unfold pending_of, settle_pending. destruct (c_fix_moveout C); [|reflexivity].
+    destruct (pend r); [discriminate | reflexivity].
+  Qed.
+
+  (* a candidate is remembered after an iteration only if the record was a directory IN_MOVED_FROM *)
+  Lemma read_one_pending t r k acc e r' k' out :
+    read_one C t (r, k, acc) e = Done (r', k', out) -> pending_of r' = true -> sets_pend (k_mask e) = true.
+  Proof.
+    rewrite read_one_settle. intros H Hp.
+    pose proof (settle_not_pending r k e) as Hs.
+    destruct (read_one_body_pend _ _ _ _ _ _ _ _ H) as [E|E]; [|exact E].
+    unfold pending_of in *. rewrite E in Hp. congruence.
   Qed.
 
   (* ---------------------------------------------------------------- a plain event *)
+  (* in general: the head of the loop may settle a remembered candidate first, then the event only appends *)
   Lemma read_one_plain_c11 t r k acc e :
     structural (c_recursive C) (k_mask e) = false ->
     read_one C t (r, k, acc) e =
-    match alookup N.eqb (k_wd e) (pfw r) with
-    | None => Crash SITE_PATH_FOR_WD
-    | Some wdp => Done (r, k, acc ++ [mkraw e (rpath wdp (k_name e))])
+    let '(r1, k1) := settle_pending C r k e in
+    match alookup N.eqb (k_wd e) (pfw r1) with
+    | None => if c_fix_moveout C then Done (r1, k1, acc) else Crash SITE_PATH_FOR_WD
+    | Some wdp => Done (r1, k1, acc ++ [mkraw e (rpath wdp (k_name e))])
     end.
   Proof.
     unfold structural. intros H.
     apply orb_false_iff in H as [H H4]. apply orb_false_iff in H as [H H3]. apply orb_false_iff in H as [H1 H2].
-    rewrite read_one_factored. destruct (alookup N.eqb (k_wd e) (pfw r)) as [wdp|]; [|reflexivity].
+    unfold read_one. destruct (settle_pending C r k e) as [r1 k1].
+    rewrite read_one_body_factored. destruct (alookup N.eqb (k_wd e) (pfw r1)) as [wdp|]; [|reflexivity].
     unfold ro_move, ro_ignored. rewrite H1, H2, H3, H4. reflexivity.
   Qed.
 
+  (* nothing remembered (or the pinned code): bookkeeping and kernel untouched *)
+  Lemma read_one_plain_idle t r k acc e :
+    structural (c_recursive C) (k_mask e) = false -> pending_of r = false ->
+    read_one C t (r, k, acc) e =
+    match alookup N.eqb (k_wd e) (pfw r) with
+    | None => if c_fix_moveout C then Done (r, k, acc) else Crash SITE_PATH_FOR_WD
+    | Some wdp => Done (r, k, acc ++ [mkraw e (rpath wdp (k_name e))])
+    end.
+  Proof. intros H Hp. rewrite (read_one_plain_c11 t r k acc e H), (settle_idle r k e Hp). reflexivity. Qed.
+
   (* ---------------------------------------------------------------- batches *)
+  (* the batch is [guarded]: a record that may find a candidate remembered - the first one when a candidate is
+     remembered at the start, and every successor of a directory IN_MOVED_FROM - is kept.  (With the repair a dropped
+     record in that position would settle the candidate in one run and not in the other.)  Trivially true of the
+     pinned code (c_fix_moveout = false). *)
+  Fixpoint guardedb (keep : N -> bool) (pending : bool) (b : list kraw) : bool :=
+    match b with
+    | [] => true
+    | e :: b' => (if pending then keep (k_mask e) else true) && guardedb keep (sets_pend (k_mask e)) b'
+    end.
+
   Theorem reader_transparent t (keep : N -> bool) :
     (forall m, structural (c_recursive C) m = true -> keep m = true) ->
     (c_recursive C = true -> keep IN_CREATE = true /\ keep (N.lor IN_CREATE IN_ISDIR) = true) ->
-    forall b r k acc r' k' out,
+    forall b r k acc r' k' out pending,
+      (pending_of r = true -> pending = true) -> guardedb keep pending b = true ->
       read_batch C t (r, k, acc) b = Done (r', k', out) ->
       read_batch C t (r, k, filter (fun x => keep (r_mask x)) acc) (filter (fun e => keep (k_mask e)) b)
       = Done (r', k', filter (fun x => keep (r_mask x)) out).
   Proof.
-    intros Hstruct Hsim. induction b as [|e b IH]; intros r k acc r' k' out Hrun.
+    intros Hstruct Hsim. induction b as [|e b IH]; intros r k acc r' k' out pending Hpend Hg Hrun.
     - cbn in *. inversion Hrun; subst. reflexivity.
-    - cbn [read_batch filter] in *.
+    - cbn [read_batch filter guardedb] in *. apply andb_true_iff in Hg as [Hg1 Hg2].
       destruct (keep (k_mask e)) eqn:Hk.
-      + destruct (read_one_acc t r k e) as [[r1 [k1 [ev [sims [Hm [Hs [Hrec H]]]]]]]|[s H]].
+      + destruct (read_one_acc t r k e) as [[r1 [k1 [o [Ho H]]]]|[s H]].
         2:{ rewrite H in Hrun. discriminate. }
-        rewrite H in Hrun. cbn [read_batch]. rewrite H.
-        assert (Hf : filter (fun x => keep (r_mask x)) (acc ++ ev :: sims)
-                     = filter (fun x => keep (r_mask x)) acc ++ ev :: sims).
-        { rewrite filter_app. f_equal. cbn [filter]. rewrite Hm, Hk. f_equal.
+        pose proof (H acc) as Hone. rewrite H in Hrun. cbn [read_batch]. rewrite H.
+        assert (Hf : filter (fun x => keep (r_mask x)) (acc ++ o) = filter (fun x => keep (r_mask x)) acc ++ o).
+        { rewrite filter_app. f_equal. destruct Ho as [->|[ev [sims [-> [Hm [Hs Hrec]]]]]]; [reflexivity|].
+          cbn [filter]. rewrite Hm, Hk. f_equal.
           destruct sims as [|x sims]; [reflexivity|].
           destruct (Hsim (Hrec ltac:(discriminate))) as [K1 K2].
           apply filter_all. intros y Hy.
           rewrite Forall_forall in Hs. destruct (Hs y Hy) as [-> | ->]; assumption. }
-        rewrite <- Hf. apply IH. exact Hrun.
+        rewrite <- Hf. apply (IH _ _ _ _ _ _ (sets_pend (k_mask e))); [|exact Hg2 | exact Hrun].
+        intros Hp. eapply read_one_pending; eassumption.
       + assert (Hp : structural (c_recursive C) (k_mask e) = false).
         { destruct (structural (c_recursive C) (k_mask e)) eqn:E; [|reflexivity].
           rewrite (Hstruct _ E) in Hk. discriminate. }
-        rewrite (read_one_plain_c11 t r k acc e Hp) in Hrun.
-        destruct (alookup N.eqb (k_wd e) (pfw r)) as [wdp|]; [|discriminate].
-        specialize (IH _ _ _ _ _ _ Hrun).
-        rewrite filter_app in IH. cbn [filter mkraw r_mask] in IH. rewrite Hk, app_nil_r in IH. exact IH.
+        assert (Hidle : pending_of r = false).
+        { destruct (pending_of r) eqn:E; [|reflexivity]. rewrite (Hpend eq_refl) in Hg1. discriminate. }
+        rewrite (read_one_plain_idle t r k acc e Hp Hidle) in Hrun.
+        destruct (alookup N.eqb (k_wd e) (pfw r)) as [wdp|].
+        * assert (Hnp : pending_of r = true -> sets_pend (k_mask e) = true) by (intros E; congruence).
+          specialize (IH r k _ _ _ _ (sets_pend (k_mask e)) Hnp Hg2 Hrun).
+          rewrite filter_app in IH. cbn [filter mkraw r_mask] in IH. rewrite Hk, app_nil_r in IH. exact IH.
+        * destruct (c_fix_moveout C); [|discriminate].
+          apply (IH r k _ _ _ _ (sets_pend (k_mask e))); [intros E; congruence | exact Hg2 | exact Hrun].
+  Qed.
+
+  Lemma guarded_pinned : c_fix_moveout C = false -> forall keep b, guardedb keep false b = true.
+  Proof.
+    intros Hf keep b. induction b as [|e b IH]; [reflexivity|]. cbn [guardedb].
+    unfold sets_pend at 1. rewrite Hf. exact IH.
   Qed.
 End R.
